@@ -5,8 +5,19 @@ from nullflow import nonnull_at
 
 # callee predicate -> label
 def source_kind(n):
+    if n.get('k') == 'Cond' and len(n.get('c', [])) == 3:
+        # `test ? lookup(x) : nullptr` is as nullable as the lookup
+        for b in n['c'][1:]:
+            while b.get('k') in ('Construct', 'Cast', 'Temp', 'Paren') and len(b.get('c', [])) == 1:
+                b = b['c'][0]
+            k = source_kind(b)
+            if k:
+                return k
+        return None
     if n.get('k') != 'Call':
         return None
+    if n.get('calleeExpr') and n.get('c') and n['c'][0].get('k') == 'Unresolved' and n['c'][0].get('n') in ('owningModel', 'owningComponent'):
+        return n['c'][0]['n']    # the same lookups inside a generic lambda (dependent context: the callee is not resolved yet)
     fn = n.get('fn')
     cal = n.get('callee', '')
     c = n.get('c', [])
@@ -64,6 +75,8 @@ def deref_sites(F):
                 for n in f.walk():
                     if n.get('k') == 'Call' and n.get('opc') in ('->', '*') and n['c'][0].get('k') == 'Ref' and n['c'][0].get('d') == v['d']:
                         out.append((f, a, k, n, v['n']))
+                    elif n.get('k') == 'DepMember' and n.get('c') and n['c'][0].get('k') == 'Ref' and n['c'][0].get('d') == v['d'] and v.get('t') == 'auto':
+                        out.append((f, a, k, n, v['n']))   # member access on the local inside a generic lambda
     # handed (directly or through the local) to a callee whose summary dereferences that parameter without a test
     from nullflow import NullSummaries
     ns = _summaries(F)
